@@ -1576,6 +1576,27 @@ fn argument_key_conflicts(ast: &Program) -> AnalyzeReport {
         }
     }
 
+    // an input block is found again - by the resolver, and when its UTxOs are applied - under its
+    // lower-cased name, and the collateral block under the name "collateral": two blocks of one
+    // tx that share that key would be given the same UTxOs
+    for tx in ast.txs.iter() {
+        let mut seen: Vec<String> = Vec::new();
+
+        if !tx.collateral.is_empty() {
+            seen.push("collateral".to_string());
+        }
+
+        for input in tx.inputs.iter() {
+            let key = input.name.to_lowercase();
+
+            if seen.contains(&key) {
+                errors.push(Error::DuplicateDefinition(input.name.clone()));
+            }
+
+            seen.push(key);
+        }
+    }
+
     AnalyzeReport::from(errors)
 }
 
